@@ -27,6 +27,7 @@ Theorem C09_gillespie_full_output :
       map (fun x : tx => fst (fst x)) txs = map ev_time (filter (fun e => N.eqb (ev_st e) stI) evs) /\
       map (fun x : tx => snd x) txs = map ev_node (filter (fun e => N.eqb (ev_st e) stI) evs) /\
       Forall (fun e => xlt (ev_time e) tmax = true) evs /\
+      Forall (fun e => In (ev_node e) (gnodes g) /\ (ev_st e = stI \/ ev_st e = rec_status kind)) evs /\
       so_rows out = init_rows g kind tmin i0 (r0_list kind r0) ++ rs /\
       map fst rs = map ev_time evs /\
       (forall k e r, nth_error evs k = Some e -> nth_error rs k = Some r ->
